@@ -159,6 +159,7 @@ func bufprop(r *simkit.Run, prop string) {
 				sc.readN = rapid.IntRange(0, ex.bodyLen+1).Draw(rt, "read-n")
 			}
 			sc.readHow = rapid.IntRange(0, 2).Draw(rt, "read-how")
+			sc.closeBody = rapid.Bool().Draw(rt, "close-body")
 			sc.mutate = rapid.Bool().Draw(rt, "mutate")
 			sc.early = rapid.IntRange(0, 5).Draw(rt, "early-hints") == 0
 			sc.abort = rapid.IntRange(0, 9).Draw(rt, "handler-aborts") == 0
